@@ -131,6 +131,15 @@ pub fn text(c: &Case) -> String {
         body += &occ_text(o, k);
         body += "\n";
     }
+    if let Some((kind, mask, _)) = c.auto.as_ref().filter(|a| a.0.starts_with("LISTTAG-")) {
+        // a tagged SEQUENCE OF / SET OF type assignment: the tag belongs to the list, not to its (anonymous) element type
+        let f: Vec<&str> = kind.split('-').collect();
+        let kw = ["", "IMPLICIT ", "EXPLICIT "][(*mask % 3) as usize];
+        let class = ["", "APPLICATION ", "PRIVATE "][(*mask / 3) as usize];
+        let elem = match f[2] { "INTEGER" => "INTEGER", "CHOICE" => "CHOICE { x NULL, y BOOLEAN }", _ => "SEQUENCE { x BOOLEAN }" };
+        body += &format!("T ::= [{class}7] {kw}{} OF {elem}\n", if f[1] == "SEQOF" { "SEQUENCE" } else { "SET" });
+        return module("M", &c.default, c.ext_implied, &body);
+    }
     if let Some((kind, _, _)) = c.auto.as_ref().filter(|a| a.0.starts_with("COMPOF-")) {
         // the automatic-tagging decision is taken on the components as written, before COMPONENTS OF is expanded (X.680 25.7)
         let k = kind.trim_start_matches("COMPOF-");
@@ -234,7 +243,7 @@ pub fn reference_encodings(c: &Case) -> Vec<(String, Vec<u8>, bool)> {
         };
         out.push((name, enc, true));
     }
-    if c.auto.as_ref().map_or(false, |a| a.0.starts_with("COMPOF-")) {
+    if c.auto.as_ref().map_or(false, |a| a.0.starts_with("COMPOF-") || a.0.starts_with("LISTTAG-")) {
         return out;
     }
     if let Some((kind, mask, nested)) = &c.auto {
@@ -435,6 +444,15 @@ impl Prop for C03 {
                 out.push(Case { default: d.into(), occ: vec![o.clone()], auto: None, ext_implied: false });
             }
         }
+        for d in ["EXPLICIT", "IMPLICIT", "AUTOMATIC"] {
+            for list in ["SEQOF", "SETOF"] {
+                for elem in ["INTEGER", "CHOICE", "SEQUENCE"] {
+                    for mask in 0u8..9 {
+                        out.push(Case { default: d.into(), occ: vec![], auto: Some((format!("LISTTAG-{list}-{elem}"), mask, false)), ext_implied: false });
+                    }
+                }
+            }
+        }
         for d in defaults {
             for kind in ["COMPOF-SEQUENCE", "COMPOF-SET"] {
                 out.push(Case { default: d.into(), occ: vec![], auto: Some((kind.into(), 0, false)), ext_implied: false });
@@ -573,7 +591,32 @@ impl Prop for C03 {
                 },
             }
         }
-        if let Some((kind, _, _)) = c.auto.as_ref().filter(|a| a.0.starts_with("COMPOF-")) {
+        if let Some((kind, mask, _)) = c.auto.as_ref().filter(|a| a.0.starts_with("LISTTAG-")) {
+            let kw = ["", "IMPLICIT", "EXPLICIT"][(*mask % 3) as usize];
+            let class = ["context", "application", "private"][(*mask / 3) as usize];
+            let want_explicit = kw == "EXPLICIT" || (kw.is_empty() && c.default == "EXPLICIT");
+            let keyb = format!("tag|list-assignment|{kind}|default={dflt}|kw={}|class={class}", if kw.is_empty() { "none" } else { kw });
+            match m.find("T").and_then(|i| i.attrs()) {
+                None => {
+                    found_all = false;
+                    discs.push(Disc::new(format!("{keyb}|missing-item"), format!("{src}\n{gen}")));
+                }
+                Some(a) => {
+                    match a.rasn.get("tag").and_then(parse_tag) {
+                        Some(t) if t.num == 7 && t.class == class && t.explicit == want_explicit => {}
+                        other => discs.push(Disc::new(format!("{keyb}|list-tag|exp-explicit={want_explicit}|got={}", other.as_ref().map_or("none".to_string(), |t| format!("{}:{}:{}", t.class, t.num, t.explicit))), format!("tag of the list type: {other:?}\n{src}\n{gen}"))),
+                    }
+                    // every other item of the module (the anonymous element type and what it hoists) is untagged as written
+                    for it in m.types() {
+                        if let Some(ia) = it.attrs() {
+                            if it.name() != "T" && ia.rasn.has("tag") {
+                                discs.push(Disc::new(format!("{keyb}|element-tagged"), format!("item {} carries a tag although only the list type is tagged\n{src}\n{gen}", it.name())));
+                            }
+                        }
+                    }
+                }
+            }
+        } else if let Some((kind, _, _)) = c.auto.as_ref().filter(|a| a.0.starts_with("COMPOF-")) {
             match m.find("T").and_then(|i| i.attrs()) {
                 None => {
                     found_all = false;
